@@ -4,6 +4,7 @@
 -/
 import Lean.Data.Json
 import MafModel.Model.Ops
+import MafModel.PyIR.Ops
 open Lean Py Model
 
 partial def loop (env : Ops.Env) (stdin stdout : IO.FS.Stream) : IO Unit := do
@@ -11,7 +12,9 @@ partial def loop (env : Ops.Env) (stdin stdout : IO.FS.Stream) : IO Unit := do
   if line.isEmpty then return ()
   let out := match Json.parse line with
     | .error e => Json.mkObj [("fatal", Json.str ("parse: " ++ e))]
-    | .ok j => Ops.dispatch env j
+    | .ok j => match Ops.getStr? j "op" with
+      | some op => if op.startsWith "body." then BodyOps.dispatch j else Ops.dispatch env j
+      | none => Ops.dispatch env j
   stdout.putStrLn out.compress
   loop env stdin stdout
 
